@@ -100,6 +100,7 @@ pub fn run(ctx: &Ctx, rep: &mut Report) {
             m.minters.insert(6);
         }
         let mut alive = true;
+        let unknown_fns = unknown_entry_points("interchain-token", &["__constructor", "add_minter", "admin", "allowance", "approve", "authorized", "balance", "burn", "burn_from", "clawback", "decimals", "is_minter", "mint", "mint_from", "name", "owner", "read_allowance", "read_balance", "receive_balance", "remove_minter", "run_migration", "set_admin", "set_authorized", "spend_allowance", "spend_balance", "symbol", "token_id", "transfer", "transfer_from", "transfer_ownership", "validate_amount", "write_allowance", "write_balance", "write_metadata", "upgrade", "migrate", "version"]);
         for _ in 0..60 {
             if !alive {
                 break;
@@ -403,6 +404,27 @@ pub fn run(ctx: &Ctx, rep: &mut Report) {
                     break;
                 }
                 apply(&mut m);
+            }
+            // entry points of the token this workload does not know, tried on cast member #4's
+            // authorisation with what is at hand; whatever they do, the read-back judges
+            if !unknown_fns.is_empty() {
+                use soroban_sdk::IntoVal;
+                let env = u.env.clone();
+                let tuples: Vec<soroban_sdk::Vec<soroban_sdk::Val>> = vec![
+                    (cast[a].clone(), 5i128).into_val(&env),
+                    (cast[a].clone(), cast[b].clone(), 5i128).into_val(&env),
+                    (cast[4].clone(), cast[a].clone(), cast[b].clone(), 5i128).into_val(&env),
+                    (cast[4].clone(), cast[a].clone(), 5i128).into_val(&env),
+                    (cast[a].clone(),).into_val(&env),
+                ];
+                let by = cast[4].clone();
+                if a != 4 && b != 4 && m.owner != 4 && !m.minters.contains(&4) {
+                    let n = u.try_unknown(&tok, &unknown_fns, &tuples, &Auth::AllBy(by));
+                    rep.count("unknown-entry-point-tried");
+                    if n > 0 {
+                        rep.count("note:unknown-entry-point-accepted-a-call");
+                    }
+                }
             }
             if !read_back(rep, &mut u, &tok, &cast, &twins, &m, op) {
                 alive = false;
